@@ -742,6 +742,16 @@ func (e *specEnv) call(n *ast.CallExpr) (SVal, error) {
 		if err := need(1); err != nil {
 			return SVal{}, err
 		}
+		// old(p) for a parameter p is the argument the function was called with, also when the body re-assigns p
+		if id, ok := n.Args[0].(*ast.Ident); ok && e.fr != nil {
+			if _, shadow := e.vars[id.Name]; !shadow {
+				for _, p := range e.fr.fn.Params {
+					if p.Name() == id.Name {
+						return SVal{V: e.fr.val(p), Ty: p.Type()}, nil
+					}
+				}
+			}
+		}
 		oe := e.child()
 		oe.st = e.old
 		if e.oldEnv != nil {
